@@ -872,6 +872,81 @@ func init() {
 	}
 }
 
+// ---- sync.Map (model): an ordinary map per sync.Map value; every operation is atomic by contract,
+// so nothing here is a shared write for the monitors ----
+func init() {
+	get := func(e *Exec, a []Value) *Map {
+		p := a[0].(Ptr)
+		if p.slot == nil {
+			e.gopanic("nil pointer dereference (sync.Map)")
+		}
+		e.modelsUsed["sync.Map (model)"]++
+		if e.syncMaps == nil {
+			e.syncMaps = map[*Value]*Map{}
+		}
+		m := e.syncMaps[p.slot]
+		if m == nil {
+			m = &Map{o: e.newObj("sync.Map"), keyT: types.NewInterfaceType(nil, nil), m: map[string]*mapEntry{}}
+			e.syncMaps[p.slot] = m
+		}
+		return m
+	}
+	intrinsics["(*sync.Map).Load"] = func(e *Exec, a []Value) Value {
+		if ent := e.mapFind(get(e, a), a[1]); ent != nil {
+			return Tuple{copyVal(ent.v), tTrue}
+		}
+		return Tuple{Iface{}, tFalse}
+	}
+	intrinsics["(*sync.Map).Store"] = func(e *Exec, a []Value) Value {
+		e.mapSet(get(e, a), a[1], a[2])
+		return nil
+	}
+	intrinsics["(*sync.Map).LoadOrStore"] = func(e *Exec, a []Value) Value {
+		m := get(e, a)
+		if ent := e.mapFind(m, a[1]); ent != nil {
+			return Tuple{copyVal(ent.v), tTrue}
+		}
+		e.mapSet(m, a[1], a[2])
+		return Tuple{a[2], tFalse}
+	}
+	del := func(e *Exec, a []Value) Value {
+		m := get(e, a)
+		ent := e.mapFind(m, a[1])
+		if ent == nil {
+			return Tuple{Iface{}, tFalse}
+		}
+		for k, x := range m.m {
+			if x == ent {
+				delete(m.m, k)
+			}
+		}
+		for i, x := range m.sym {
+			if x == ent {
+				m.sym = append(m.sym[:i:i], m.sym[i+1:]...)
+				break
+			}
+		}
+		return Tuple{copyVal(ent.v), tTrue}
+	}
+	intrinsics["(*sync.Map).LoadAndDelete"] = del
+	intrinsics["(*sync.Map).Delete"] = func(e *Exec, a []Value) Value { del(e, a); return nil }
+	intrinsics["(*sync.Map).Range"] = func(e *Exec, a []Value) Value {
+		m := get(e, a)
+		var ents []*mapEntry
+		for _, k := range m.sortedKeys() {
+			ents = append(ents, m.m[k])
+		}
+		ents = append(ents, m.sym...)
+		for _, ent := range ents {
+			r := e.call(a[1], []Value{copyVal(ent.k), copyVal(ent.v)}, 0)
+			if t, ok := r.(*Term); ok && !e.decide(t) {
+				break
+			}
+		}
+		return nil
+	}
+}
+
 // ---- unicode predicates and case mapping (tables read from the real package) ----
 func rangeTableTerm(r *Term, rt *unicode.RangeTable) *Term {
 	c := tFalse
